@@ -249,8 +249,11 @@ def cases(ctx):
     nvalid = ctx.n(90, 1500)
     for i in range(nvalid):
         g = omgen.Gen(rng, nh=(i % 3 == 0))
-        doc = g.document()
+        sdoc = g.doc()
+        doc = omgen.render(sdoc)
         yield from emit(doc, 'valid')
+        if i % 2 == 0:        # groups exposed again at a later timestamp (scrape history)
+            yield from emit(omgen.render(omgen.repeat_exposures(rng, sdoc)), 'repeat')
         for mdoc, kind in omgen.mutations(rng, doc, single=ctx.n(18, 60), double=ctx.n(6, 30)):
             yield from emit(mdoc, 'mut:' + kind)
         if i % 10 == 0:
